@@ -48,6 +48,9 @@ def check_circuit(params):
     recipe = norm(params["recipe"]) if "recipe" in params else ("circuit", None, None)
     if "expr" in params:
         c = build.kit("circuit").box(("e", params["expr"]))
+    elif "zoo" in params:
+        from mc import zoo
+        c = zoo.value("circuit", params["zoo"])
     else:
         c = build.build(recipe)
     out = []
@@ -56,6 +59,12 @@ def check_circuit(params):
         out.append((_sig(kind, params), "%s: %s" % (c, msg)))
     try:
         z = circuit2zx(c)
+    except (KeyError, NotImplementedError) as e:
+        if "zoo" in params:         # a gate outside the supported set: refused
+            params["_refused"] = True
+            return out
+        bad("raises", "circuit2zx raised %s: %s" % (type(e).__name__, str(e)[:120]))
+        return out
     except Exception as e:  # noqa
         bad("raises", "circuit2zx raised %s: %s" % (type(e).__name__, str(e)[:120]))
         return out
@@ -125,6 +134,8 @@ def _worker(shard):
         part.count("states")
         if params.pop("_zero", False):
             part.count("zero_valued_circuits")
+        if params.pop("_refused", False):
+            part.count("refused_unsupported_gate")
         part.seen("nontrivial", repr(sorted((k, repr(v)) for k, v in params.items())))
         for s_, msg in res:
             part.violation(s_, msg, case, params)
@@ -144,6 +155,20 @@ def run(ctx):
         uni = [r for r in uni if len(r[2]) <= 2] + [r for r in uni if len(r[2]) == 3][::30]
         ctx.cap_hit("depth-3 circuits enumerated with stride 30 (depth <= 2 complete)")
     items += [("circuit", dict(recipe=r)) for r in uni]
+    # the box zoo: every pure box constructor x flag variant (controlled gates built with
+    # Controlled(...), daggers, user-defined gates): translated correctly or refused
+    from mc import zoo
+    for e in zoo.entries("circuit"):
+        v = zoo.value("circuit", e)
+        if not hasattr(v, "is_mixed") or v.is_mixed or v.free_symbols \
+                or any(o.name != "qubit" for b in v.boxes for t in (b.dom, b.cod) for o in t.objects) \
+                or any(type(b).__name__ in ("Box", "Bubble") or not hasattr(b, "name") for b in v.boxes):
+            continue
+        try:
+            qref.pure_ref(v.id(v.dom) >> v)
+        except KeyError:
+            continue
+        items.append(("circuit", dict(zoo=e)))
     zuni = list(build.expr_universe("zx", zx_sig(), [(), (1,), (1, 1)], 2 if ctx.quick else 3, 3))
     if ctx.quick:
         pass  # complete at this depth in the quick tier
